@@ -27,3 +27,42 @@ Definition expectation (d : nat) (o : mat) (rho : list K) : K :=
 End SuperOps.
 Arguments kron {K}. Arguments left_super {K}. Arguments right_super {K}. Arguments left_right_super {K}.
 Arguments commutator {K}. Arguments acommutator {K}. Arguments expectation {K}. Arguments madd {K}. Arguments msub {K}. Arguments mscale {K}.
+
+(* ---- index-pair form: superoperators as functions of ((i,j),(k,l)) ------------------------
+   Row-major vectorisation: row index i*d + j <-> (i,j), column index k*d + l <-> (k,l).
+   These are the definitions the theorems are about; [tab_super] turns them into the matrix the
+   code builds with np.kron, which is what the correspondence compares. *)
+Section PairForm.
+Variable K : Ring.
+Open Scope rg_scope.
+Variable conj : K -> K.
+Variable iu : K.
+Definition M2 := nat -> nat -> K.
+
+Definition delta (a b : nat) : K := if Nat.eqb a b then r1 else r0.
+Definition ls_f (A : M2) (i j k l : nat) : K := A i k * delta j l.            (* kron(A, 1)   *)
+Definition rs_f (B : M2) (i j k l : nat) : K := delta i k * B l j.            (* kron(1, B^T) *)
+Definition lrs_f (A B : M2) (i j k l : nat) : K := A i k * B l j.             (* kron(A, B^T) *)
+Definition dag (A : M2) : M2 := fun i j => conj (A j i).
+Definition mm (d : nat) (A B : M2) : M2 := fun i k => sumn d (fun x => A i x * B x k).
+
+(* twice the Lindbladian of oqupy.system._liouvillian (no 1/2 needed in the ring):
+   2L = -2i (H x 1 - 1 x H^T) + sum_n gamma_n (2 A_n x A_n^* - (A_n^+ A_n) x 1 - 1 x (A_n^+ A_n)^T) *)
+Definition diss2 (d : nat) (A : M2) (i j k l : nat) : K :=
+  let AdA := mm d (dag A) A in
+  (r1 + r1) * lrs_f A (dag A) i j k l - (ls_f AdA i j k l + rs_f AdA i j k l).
+Fixpoint liouv2_diss (d : nat) (terms : list (K * M2)) (i j k l : nat) : K :=
+  match terms with
+  | [] => r0
+  | (g, A) :: t => g * diss2 d A i j k l + liouv2_diss d t i j k l
+  end.
+Definition liouv2 (d : nat) (H : M2) (terms : list (K * M2)) (i j k l : nat) : K :=
+  - ((r1 + r1) * iu) * (ls_f H i j k l - rs_f H i j k l) + liouv2_diss d terms i j k l.
+
+Definition tab_super (d : nat) (f : nat -> nat -> nat -> nat -> K) : list (list K) :=
+  flat_map (fun i => map (fun j =>
+     flat_map (fun k => map (fun l => f i j k l) (seq 0 d)) (seq 0 d)) (seq 0 d)) (seq 0 d).
+Definition fun_of (m : list (list K)) : M2 := fun i j => nth j (nth i m []) r0.
+End PairForm.
+Arguments ls_f {K}. Arguments rs_f {K}. Arguments lrs_f {K}. Arguments dag {K}. Arguments mm {K}.
+Arguments liouv2 {K}. Arguments diss2 {K}. Arguments liouv2_diss {K}. Arguments tab_super {K}. Arguments fun_of {K}. Arguments delta {K}.
